@@ -550,7 +550,7 @@ func main() {
 				diffAttrs(ta, tb, why, 0, "")
 			}
 		}
-		fmt.Fprintf(w, "pair %d %s %s %s %s %s | %s\n", i, b01(id), hx(na), hx(nb), keys(why), s.term(ta), s.term(tb))
+		fmt.Fprintf(w, "pair %d %s %s %s %s%s %s | %s\n", i, b01(id), hx(na), hx(nb), keys(why), cmpFlags(ta, tb), s.term(ta), s.term(tb))
 	}
 	for _, i := range wi {
 		tt, ti := vars[fmt.Sprintf("W%dt", i)], vars[fmt.Sprintf("W%di", i)]
@@ -571,6 +571,11 @@ func main() {
 		fmt.Fprintf(w, "impl %d %s %s t: %s | v: %s | %s | %s\n", i, b01(types.Implements(tt, it)), b01(types.IsInterface(tt)),
 			table(b, im), table(b, vm), s.methodsTerm(vm), s.term(ti.Underlying()))
 	}
+}
+
+// ",cc" suffix of the why field: are the two types comparable (usable with == and as map keys)?
+func cmpFlags(a, b types.Type) string {
+	return "," + b01(types.Comparable(a)) + b01(types.Comparable(b))
 }
 
 func b01(b bool) string {
